@@ -2988,7 +2988,16 @@ class Mailbox:
             logger.debug("Mailbox chain: %s", mbox_chain)
             mbox_name = "/".join(mbox_chain)
             logger.debug("Creating mailbox: '%s', mbox_name")
-            MH(server.maildir / mbox_name)
+            try:
+                MH(server.maildir / mbox_name)
+            except NoSuchMailboxError as exc:
+                # There is a file by that name: a message of the superior
+                # mailbox (`inbox/3`)
+                #
+                raise InvalidMailbox(
+                    f"Can not create a mailbox named '{mbox_name}': it is "
+                    "one of the messages of its superior mailbox"
+                ) from exc
             mbox_names.append(mbox_name)
 
         # Now that we have created all the folders we need to go through them
@@ -3165,6 +3174,14 @@ class Mailbox:
             pass
         else:
             raise MailboxExists(f"Destination mailbox '{new_name}' exists")
+
+        # A file by that name is a message of the superior mailbox.
+        #
+        if os.path.lexists(server.maildir / new_name):
+            raise InvalidMailbox(
+                f"Can not rename to '{new_name}': it is one of the messages "
+                "of its superior mailbox"
+            )
 
         # A mailbox can not be moved underneath itself.
         #
